@@ -358,13 +358,13 @@ theorem HeadOut.unpush {tok : Token} {res : ProcessResult} {s s1 s2 : State} {he
 resulting mode holds -/
 theorem sat_reset_sinv {m : Mode} {s : State} (hi : HInv s) (hs : SInv m s) (hm : m ≠ .inTableText)
     (hr : Rooted s.dom s.openElems) :
-    Sat resetInsertionMode s (fun m2 s' => QF s s' ∧ SInv m2 s' ∧ m2 ≠ .inTableText) := by
+    Sat resetInsertionMode s (fun m2 s' => QF s s' ∧ SInv m2 s' ∧ m2 ≠ .inTableText ∧ m2 ≠ .text) := by
   refine (sat_resetInsertionMode hi hs.tmodes hs.tmpl hs.headIn).mono ?_
   rintro m2 s' ⟨hq, rk⟩
   have hs' : SInv m s' := hs.of_qf hi hq
   have hr' : Rooted s'.dom s'.openElems := by rw [hq.openElems]; exact hr.ext hq.ext hi.open_el
   exact ⟨hq, hs'.chmode hm (fun _ => hr') rk.stack rk.head rk.notSpecial.1 rk.notSpecial.2.1,
-    rk.notSpecial.2.1⟩
+    rk.notSpecial.2.1, rk.notSpecial.1⟩
 
 /-- the state after the stack was cut below a `template`, the list of active formatting elements
 cleared to the last marker and the template insertion mode popped -/
@@ -514,9 +514,9 @@ theorem inTemplateEof_spec : TemplateEofSpec := by
   rintro _ s6 rfl
   have hi5 : HInv s5 := hi2.of_qf hq5
   have hr5 : Rooted s5.dom s5.openElems := by rw [hq5.openElems]; exact hr2.ext hq5.ext hi2.open_el
-  refine (sat_reset_sinv (hi5.withMode m) (hs5.withMode m) hm5 hr5).bind ?_
-  rintro m2 s7 ⟨hq7, hs7, _⟩
-  exact sat_pure ⟨(hi5.withMode m).of_qf hq7, hs7, rfl⟩
+  refine (sat_reset_sinv (hi5.withMode m) (hs5.withMode m) hm5.1 hr5).bind ?_
+  rintro m2 s7 ⟨hq7, hs7, hm7⟩
+  exact sat_pure ⟨(hi5.withMode m).of_qf hq7, hs7, rfl, hm7.2⟩
 
 /-! ### the arms of `stepInHead` -/
 
@@ -686,7 +686,7 @@ theorem stepInHead_explicit (tok : Token) (s : State) (ht : TI s) (ho : origOk s
     refine (sat_pop htop).bind ?_
     rintro _ s1 ⟨-, st⟩
     obtain ⟨hi1, hs1⟩ := afterHead_of_pop ht (hmode h1) st
-    exact sat_pure (.other h2 ⟨hi1, hs1, rfl⟩)
+    exact sat_pure (.other h2 ⟨hi1, hs1, rfl, by decide⟩)
   unfold stepInHead
   cases tok with
   | chars st text =>
